@@ -450,6 +450,11 @@ func concatStrings(lhs *ValueExpression, rhs *ValueExpression) *ValueExpression 
 
 	// lhs is string, add rhs to prefix of first var
 	if lhs.FString == nil && rhs.FString != nil {
+		// If rhs has no variables, its suffix is the entire string
+		if len(rhs.FString.Vars) == 0 {
+			rhs.FString.Suffix = lhs.String[1:len(lhs.String)-1] + rhs.FString.Suffix
+			return rhs
+		}
 		rhs.FString.Vars[0].Prefix = lhs.String[1:len(lhs.String)-1] + rhs.FString.Vars[0].Prefix
 		return rhs
 	}
